@@ -2,7 +2,7 @@
 From V Require Import Base.
 From V.spec Require Import Spec6809.
 From V.model Require Import MText MValues MOperands MProgram.
-From V.proofs Require Import PRender PC12.
+From V.proofs Require Import PRender PC12 PSize.
 From V.gen Require Tables.
 From Coq Require String.
 Import String.StringSyntax.
@@ -72,6 +72,15 @@ Theorem C12_table_and_finite_forms :
   special_tables_ok = true.
 Proof. split; [exact rows_ok|]. split; [exact static_forms_ok|]. split; [exact off5_ok | exact special_tables_are_ok]. Qed.
 Print Assumptions C12_table_and_finite_forms.
+
+(* "their count equals the space the listing reserves for the statement": for EVERY accepted program and EVERY
+   statement of it, whatever its operand class - label operands, label arithmetic, PC-relative operands whose
+   width the size loop decides, data directives (proofs/PSize.v) *)
+Theorem C12_count_is_reserved_size :
+  forall fm lines r, MProgram.assemble fm lines = Ok r ->
+    Forall (fun s => r_size s = N.of_nat (length (r_bytes s))) (r_stmts r).
+Proof. exact statement_size_is_bytes. Qed.
+Print Assumptions C12_count_is_reserved_size.
 
 (* ---- rejected rather than encoded as something else ---- *)
 (* a value that cannot be represented in the operand's width *)
